@@ -306,6 +306,10 @@ def _get_hashable_object(obj):
         obj = type(None)
     if isclass(obj):
         return f"{obj.__module__}.{obj.__qualname__}"
+    if inspect.isfunction(obj) or inspect.isbuiltin(obj):
+        # Functions are compared by identity. A string keeps that and, unlike the function
+        # itself, can be ordered when SymPy sorts terms that differ in this attribute only.
+        return f"{obj.__module__}.{obj.__qualname__} at {id(obj):#x}"
     try:
         hash(obj)
     except TypeError:
